@@ -276,6 +276,18 @@ class Scenario:
         h.advance(31)               # past the idle timeout: the node sends its DWR, connections await the DWA
         h.settle()
         self.w.observe()
+        # awaiting a DWA is a ready sub-state: application requests are routed exactly as before
+        from diameter.message.commands import CreditControlRequest
+        import random as _random
+        rng = _random.Random(31)
+        for name in names:
+            p, pc = self.peers[name]
+            conn = h.conn_of(p)
+            if conn is None or p.node_sock.closed:
+                continue
+            self.run.cov["requests_while_awaiting_dwa"] = self.run.cov.get("requests_while_awaiting_dwa", 0) + 1
+            for ai in sorted({a["id"] for a in self.cfg["apps"]})[:2] + [99]:
+                self.request_case(CreditControlRequest, [], pc.get("realm", R1), ai, name, rng, "CCR@awaiting_dwa")
         for i, name in enumerate(names):
             p, pc = self.peers[name]
             if p.node_sock.closed:
